@@ -51,6 +51,12 @@ def failure(exc):
     for a in ("lineno", "colno", "url"):
         v = getattr(exc, a, "<absent>")
         out[a] = v if isinstance(v, (int, str, type(None))) else repr(v)
+    from zcsim import world as _world0
+    w0 = _world0.CURRENT
+    if w0 is not None and getattr(w0, "foreign", None):
+        # a simulator callback raised an error of its own (not a rejection):
+        # is what came out of the call that very object?
+        out["is_foreign"] = any(exc is r for r in w0.foreign)
     if isinstance(exc, ZConfig.DataConversionError):
         v = exc.value
         out["value"] = v if isinstance(v, str) else "<%s>" % type(v).__name__
